@@ -322,7 +322,51 @@ class Engine:
     def __pyvc_getattr__(self, sx, attr, st, node):
         if attr == "begin":
             return [R(st, Func(lambda sx2, a, k, s, n: [R(s, Conc(BeginCM()))], "db.begin"))]
+        if attr == "connect":
+            return [R(st, Func(lambda sx2, a, k, s, n: [R(s, Conc(ConnectCM()))], "db.connect"))]
         raise Unsupported("engine.%s" % attr, node)
+
+
+class ConnectCM:
+    """engine.connect(): a pooled connection without an explicit transaction (read path)"""
+
+    def enter(self, sx, st, node):
+        st.ghost["conns_open"] = Val(V.Int, st.ghost["conns_open"].term + 1)
+        bad = st.fork()
+        bad.ghost["conns_open"] = Val(V.Int, bad.ghost["conns_open"].term - 1)
+        return [R(st, Conc(ReadConnection())), R(bad, None, engine_error())]
+
+    def exit(self, sx, st, exc, node):
+        st.ghost["conns_open"] = Val(V.Int, st.ghost["conns_open"].term - 1)
+        return [R(st, False)]
+
+
+class ReadConnection:
+    def __pyvc_getattr__(self, sx, attr, st, node):
+        if attr == "stream":
+            return [R(st, Func(lambda sx2, a, k, s, n: [R(s, Conc(StreamCM()))], "conn.stream"))]
+        raise Unsupported("read connection .%s" % attr, node)
+
+
+class StreamCM:
+    """conn.stream(query) used as `async with ... as result`"""
+
+    def enter(self, sx, st, node):
+        return [R(st, Conc(RowStream())), R(st.fork(), None, engine_error())]
+
+    def exit(self, sx, st, exc, node):
+        return [R(st, False)]
+
+
+class RowStream:
+    """async iteration over the result: arbitrary rows, any number of them, or an engine error"""
+
+    def __pyvc_iter__(self, sx, st, node):
+        return ("opaque", self)
+
+    def next(self, sx, st, k):
+        r = sx.fresh(ROW, "streamed_row", st)
+        return [R(st, r), R(st.fork(), None, engine_error())]
 
 
 class SemaphoreCM:
@@ -336,15 +380,29 @@ class SemaphoreCM:
         st.ghost["slots_held"] = Val(V.Int, st.ghost["slots_held"].term - 1)
         return [R(st, False)]
 
+    def __pyvc_getattr__(self, sx, attr, st, node):
+        # used by hand instead of `async with`
+        if attr == "acquire":
+            def acq(sx2, a, k, s, n):
+                s.ghost["slots_held"] = Val(V.Int, s.ghost["slots_held"].term + 1)
+                return [R(s, V.mk_bool(True))]
+            return [R(st, Func(acq, "semaphore.acquire"))]
+        if attr == "release":
+            def rel(sx2, a, k, s, n):
+                s.ghost["slots_held"] = Val(V.Int, s.ghost["slots_held"].term - 1)
+                return [R(s, NONE)]
+            return [R(st, Func(rel, "semaphore.release"))]
+        raise Unsupported("semaphore.%s" % attr, node)
 
-REG.ctx_managers.append((lambda m, st: isinstance(m, Conc) and isinstance(m.v, (BeginCM, SemaphoreCM)), lambda m: m.v))
+
+REG.ctx_managers.append((lambda m, st: isinstance(m, Conc) and isinstance(m.v, (BeginCM, SemaphoreCM, ConnectCM, StreamCM)), lambda m: m.v))
 
 
 def ghost_sql(sx, st):
     st.ghost["rows"] = sx.fresh(ROWS, "rows0", st)
     st.ghost["rows_at_begin"] = st.ghost["rows"]
     st.ghost["txn_open"] = V.mk_bool(False)
-    for g in ("n_statements", "n_deletes", "n_inserts", "n_tag_inserts", "n_txn", "n_commits", "n_rollbacks", "slots_held"):
+    for g in ("n_statements", "n_deletes", "n_inserts", "n_tag_inserts", "n_txn", "n_commits", "n_rollbacks", "slots_held", "conns_open"):
         st.ghost[g] = V.mk_int(0)
     st.ghost["last_rowcount"] = V.mk_int(0)
     st.ghost["inserted"] = V.mk_bool(False)
